@@ -21,8 +21,11 @@ use std::sync::{Arc, Mutex};
 #[derive(Default)]
 struct CapSink {
     got: Mutex<Vec<(String, Vec<u8>, u16)>>,
+    /// the transport behind the sink has closed (the peer itself stays registered until it is removed)
+    closed: std::sync::atomic::AtomicBool,
 }
 impl PeerSink for CapSink {
+    fn is_connected(&self) -> bool { !self.closed.load(Ordering::SeqCst) }
     fn send_notify(&self, method: &str, body: NotifyBody) -> Result<(), PeerSendError> {
         let fmt = u16::from(body.body_format());
         self.got.lock().unwrap().push((method.to_string(), body.into_bytes(), fmt));
@@ -45,9 +48,12 @@ impl World {
     fn exec(&self, name: &str, p: u64, k: &str, serial: u64) -> (Value, Value, u64) {
         match name {
             "insert" => {
+                self.sinks[&p].closed.store(false, Ordering::SeqCst);
                 self.reg.insert(self.handle(p));
                 (json!([]), Value::Null, 0)
             }
+            // the peer's transport closes; the registry is told nothing (its disconnect hook has not run yet)
+            "close_sink" => { self.sinks[&p].closed.store(true, Ordering::SeqCst); (json!([]), Value::Null, 0) }
             "remove" => (opt_peer(self.reg.remove(PeerId(p))), Value::Null, 0),
             "alias" => (json!([if self.reg.alias(PeerId(p), k.to_string()) { 1 } else { 0 }]), Value::Null, 0),
             "get" => (opt_peer(self.reg.get(PeerId(p))), Value::Null, 0),
@@ -341,6 +347,8 @@ pub fn hist(a: &Args) -> i32 {
                     let p = mine[rng.gen_range(0..mine.len())];
                     mine_present.remove(&p);
                     ("remove".to_string(), p, String::new())
+                } else if c < 35 {
+                    ("close_sink".to_string(), p_any, String::new())
                 } else if c < 62 {
                     ("alias".to_string(), p_any, k)
                 } else if c < 72 {
